@@ -252,6 +252,21 @@ pub fn run(tier: &str) -> i32 {
         let root = sp.env.get(&sp.root).clone();
         progs.push(Prog { key: format!("also-global|{}", sp.key), src: sp.src.clone(), structs: vec![root], entries: vec![("vs_main".to_string(), vec![Some(0)])] });
     }
+    // the vertex structs also pass through ordinary functions (parameter, result, local variable)
+    {
+        let n0 = progs.len();
+        for i in 0..n0 {
+            if !(progs[i].key.starts_with("entry|") || i % 9 == 0) {
+                continue;
+            }
+            let mut q = progs[i].clone();
+            for (k, sd) in progs[i].structs.iter().enumerate() {
+                q.src.push_str(&format!("fn displace_{k}(v: {n}) -> {n} {{\n    var local_copy: {n} = v;\n    return local_copy;\n}}\n", n = sd.name));
+            }
+            q.key = format!("{}|through-helpers", q.key);
+            progs.push(q);
+        }
+    }
     // member types written through `alias` declarations (every 4th program)
     {
         let n0 = progs.len();
@@ -290,7 +305,7 @@ pub fn run(tier: &str) -> i32 {
     let n0 = progs.len();
     for i in 0..n0 {
         if thorough || hash64(&progs[i].key) % 4 == 1 {
-            for how in ["reverse", "entries-first"] {
+            for how in ["reverse", "entries-first", "interleave"] {
                 if let Some(src) = reorder_decls(&progs[i].src, how) {
                     let mut q = progs[i].clone();
                     q.key = format!("{}|decl-order={how}", q.key);
